@@ -437,7 +437,7 @@ func runC01(r *Run, verifDir string) {
 		for _, n := range sortedNamed(c.reach.custom[dir]) {
 			if st, ok := n.Underlying().(*types.Struct); ok {
 				for i := 0; i < st.NumFields(); i++ {
-					checkT(st.Field(i).Type(), st.Field(i).Pos(), qualName(n)+"."+st.Field(i).Name())
+					checkT(st.Field(i).Type(), st.Field(i).Pos(), qualName(n)+"."+fname(st.Field(i)))
 				}
 			}
 		}
@@ -751,7 +751,7 @@ func (c *c01ctx) checkValue() {
 			return
 		}
 		_, fld, ok := fieldAddrOf(st.Addr)
-		if !ok || fld.Name() != "Value" {
+		if !ok || fname(fld) != "Value" {
 			return
 		}
 		mi, ok := st.Val.(*ssa.MakeInterface)
